@@ -213,6 +213,14 @@ def run(ctx):
     lines = ["N " + s for s in strs]
     exp = [expected_N(s) if RFC.match(s) else None for s in strs]
     run_lines(ctx, lines, exp, "all-strings<=%d" % L1, whatN)
+    # 1b. exponents that do not fit Go's int (outside the property's quantifier; model <-> library tie only): refused, never wrapped
+    big = []
+    for X in (2 ** 63, 2 ** 63 + 1, 2 ** 64 - 1, 2 ** 64, 2 ** 64 + 1, 2 ** 64 + 2, 2 ** 65, 10 ** 20, 10 ** 30, 3 * 2 ** 64 + 1):
+        for m in ("1", "5", "-1", "1.5", "10", "0.1"):
+            for sg in ("", "+", "-"):
+                big.append("%se%s%d" % (m, sg, X))
+    run_lines(ctx, ["N " + s for s in big], [None] * len(big), "exponent-beyond-int", whatN)
+    ctx.extra["exponent_beyond_int_cases"] = len(big)
     # 2. all numerals up to L2
     nums = [x for x in numerals(L2) if in_scope(x)]
     ctx.extra["numerals_exhaustive"] = len(nums)
